@@ -59,16 +59,17 @@ theorem trk_ents_cons (i : Nat) (x : Val) (xs : List Val) : ents i (x :: xs) = (
 
 theorem trk_ents_nil (i : Nat) : ents i [] = [] := by simp [ents, mkEntries]
 
-theorem trk_keyOf_rec (cfg : Cfg) (hck : cfg.ck.pats.isEmpty = true) (p : Path) {x : Val} (hx : isRecV x = true) :
-    keyOf cfg p x = .ok [] := by
-  cases x <;> simp_all [isRecV, keyOf]
+theorem trk_keyOf_rec (cfg : Cfg) (hck : cfg.ck.pats.isEmpty = true) (p : Path) (i : Nat) {x : Val} (hx : isRecV x = true) :
+    keyOf cfg p i x = .ok [] := by
+  have hck' : cfg.ck.pats = [] := by simpa using hck
+  cases x <;> simp_all [isRecV, keyOf, recordFields, fieldsKey]
 
-theorem trk_keysOf (cfg : Cfg) (hck : cfg.ck.pats.isEmpty = true) (p : Path) : ∀ xs : List Val,
-    (∀ x ∈ xs, isRecV x = true) → keysOf cfg p xs = .ok (List.replicate xs.length [])
-  | [], _ => rfl
-  | x :: xs, h => by
-    simp only [keysOf, trk_keyOf_rec cfg hck p (h x (List.mem_cons_self ..)),
-      trk_keysOf cfg hck p xs (fun z hz => h z (List.mem_cons_of_mem _ hz)), List.length_cons, List.replicate_succ]
+theorem trk_keysOf (cfg : Cfg) (hck : cfg.ck.pats.isEmpty = true) (p : Path) : ∀ (i : Nat) (xs : List Val),
+    (∀ x ∈ xs, isRecV x = true) → keysOf cfg p i xs = .ok (List.replicate xs.length [])
+  | _, [], _ => rfl
+  | i, x :: xs, h => by
+    simp only [keysOf, trk_keyOf_rec cfg hck p i (h x (List.mem_cons_self ..)),
+      trk_keysOf cfg hck p (i + 1) xs (fun z hz => h z (List.mem_cons_of_mem _ hz)), List.length_cons, List.replicate_succ]
 
 theorem trk_recItems (xs : List Val) (h : xs.all isRecV = true) : ∀ x ∈ xs, isRecV x = true :=
   fun x hx => List.all_eq_true.1 h x hx
@@ -216,7 +217,7 @@ theorem trk_leaf_image {f : Val → Val} (hf : TrLeafFn f) {y : Val} (hy : isLea
 /-- the keys of a list of records and leaves are the keys of the mapped list in the run without `transform` -/
 theorem trk_keysOf_flat (cfg : Cfg) (hck : cfg.ck.pats.isEmpty = true) (hl : LeafTransform cfg) (p : Path) :
     ∀ (xs : List Val) (i : Nat), (∀ x ∈ xs, isRecV x = true ∨ isLeaf x = true) →
-      ∃ ks, keysOf cfg p xs = .ok ks ∧ keysOf (noTransf cfg) p (mapTL cfg p (transformAt cfg p) i xs) = .ok ks
+      ∃ ks, keysOf cfg p i xs = .ok ks ∧ keysOf (noTransf cfg) p i (mapTL cfg p (transformAt cfg p) i xs) = .ok ks
   | [], _, _ => ⟨[], rfl, by simp [mapTL, keysOf]⟩
   | x :: xs, i, h => by
     obtain ⟨ks, h1, h2⟩ := trk_keysOf_flat cfg hck hl p xs (i + 1) (fun z hz => h z (List.mem_cons_of_mem _ hz))
@@ -225,17 +226,17 @@ theorem trk_keysOf_flat (cfg : Cfg) (hck : cfg.ck.pats.isEmpty = true) (hl : Lea
     rcases h x List.mem_cons_self with hr | hlf
     · have hr' : isRecV (mapTChild cfg (p ++ [.idx i]) (transformAt cfg p) x) = true := by
         cases x <;> simp_all [isRecV, mapTChild, isLeaf, mapT]
-      exact ⟨[] :: ks, by simp only [keysOf, trk_keyOf_rec cfg hck p hr, h1],
-        by simp only [keysOf, trk_keyOf_rec (noTransf cfg) hck p hr', h2]⟩
+      exact ⟨[] :: ks, by simp only [keysOf, trk_keyOf_rec cfg hck p i hr, h1],
+        by simp only [keysOf, trk_keyOf_rec (noTransf cfg) hck p i hr', h2]⟩
     · have hc : mapTChild cfg (p ++ [.idx i]) (transformAt cfg p) x = transformAt cfg p x := by
         simp [mapTChild, hlf]
       have him := trk_leaf_image hf hlf
       refine ⟨jsonVal (transformAt cfg p x) :: ks, ?_, ?_⟩
-      · have : keyOf cfg p x = .ok (jsonVal (transformAt cfg p x)) := by
+      · have : keyOf cfg p i x = .ok (jsonVal (transformAt cfg p x)) := by
           cases x <;> simp_all [keyOf, isLeaf]
         simp only [keysOf, this, h1]
       · rw [hc]
-        have : keyOf (noTransf cfg) p (transformAt cfg p x) = .ok (jsonVal (transformAt cfg p x)) := by
+        have : keyOf (noTransf cfg) p i (transformAt cfg p x) = .ok (jsonVal (transformAt cfg p x)) := by
           generalize transformAt cfg p x = v at him
           cases v <;> simp_all [keyOf, isLeaf, transformAt_noTransf]
         simp only [keysOf, this, h2]
@@ -350,10 +351,10 @@ theorem trk_sub (cfg : Cfg) (hd : cfg.direct = false) (hck : cfg.ck.pats.isEmpty
           intro hxr hyr
           have hix := trk_recItems xs hxr
           have hiy := trk_recItems ys hyr
-          have hkx := trk_keysOf cfg hck p xs hix
-          have hky := trk_keysOf cfg hck p ys hiy
-          have hkx' := trk_keysOf (noTransf cfg) hck p _ (trk_mapTL_recItems cfg p (transformAt cfg p) xs 0 hix)
-          have hky' := trk_keysOf (noTransf cfg) hck p _ (trk_mapTL_recItems cfg p (transformAt cfg p) ys 0 hiy)
+          have hkx := trk_keysOf cfg hck p 0 xs hix
+          have hky := trk_keysOf cfg hck p 0 ys hiy
+          have hkx' := trk_keysOf (noTransf cfg) hck p 0 _ (trk_mapTL_recItems cfg p (transformAt cfg p) xs 0 hix)
+          have hky' := trk_keysOf (noTransf cfg) hck p 0 _ (trk_mapTL_recItems cfg p (transformAt cfg p) ys 0 hiy)
           have ih := trk_keyedWalk cfg hd hck hl p (.list .n0 xs) (.list .n0 ys)
             (.list .n0 (mapTL cfg p (transformAt cfg p) 0 xs)) (.list .n0 (mapTL cfg p (transformAt cfg p) 0 ys)) 0 xs ys
             hv.2 hw.2
@@ -580,9 +581,10 @@ theorem trk_example :
     (compareTop { trkCfg with tr := [] } trkA trkB).map (·.diffs) = .ok 4 := by
   decide
 
-/-- with a composite key the keyed statement fails for another reason: the key is built from the TRANSFORMED
-field, which must be a `str` — the identity function on the `int` key field `id` raises `TypeError`, the plain run
-on the (identical) mapped trees returns normally -/
+/-- with a composite key and a transform that returns a non-`str` for a key field (the identity function on the `int`
+key field `id`) the comparison used to raise `TypeError` (the key concatenated the transformed field); with fix C08-b
+the transformed field goes through the JSON text like every other value: the run returns, as the plain run on the
+(identical) mapped trees does -/
 def trkCkCfg : Cfg := { Cfg.default Flags.init false with ck := .one ['i', 'd'], tr := [⟨['/', '/', 'i', 'd'], id⟩] }
 def trkCkA : Val := .list .n0 [.dict .n0 [(['i', 'd'], .int 1)]]
 
@@ -592,8 +594,8 @@ theorem trkCkCfg_leaf : LeafTransform trkCkCfg := by
   subst ht
   exact ⟨fun _ _ => rfl, fun _ _ => rfl, fun _ h => h, .inr rfl⟩
 
-theorem trk_ck_cex :
-    recOnly trkCkA = true ∧ compareTop trkCkCfg trkCkA trkCkA = .error .TypeError ∧
+theorem trk_ck_fixed :
+    recOnly trkCkA = true ∧ (compareTop trkCkCfg trkCkA trkCkA).map (·.diffs) = .ok 0 ∧
       mapT trkCkCfg [] trkCkA = trkCkA ∧
       (compareTop { trkCkCfg with tr := [] } (mapT trkCkCfg [] trkCkA) (mapT trkCkCfg [] trkCkA)).map (·.diffs) = .ok 0 := by
   decide
